@@ -106,19 +106,29 @@ func vC20(steps, maxNames, maxLen int, stubFails bool) {
 		return
 	}
 	live := []cEnt{root.(cEnt)}
+	var dead []cEnt // entries the caller has clunked or removed (lite alphabet only)
 	vAssert(vBoundTo(sess, live[0].fid) != nil, "C20: the attached entry's fid is bound on the server")
 	for st := 0; st < steps && len(live) > 0; st++ {
 		idx := ndChoice("which", len(live))
 		ent := live[idx]
 		var op int
 		if lite {
-			op = []int{0, 1, 2, 5, 6, 7}[ndChoice("op", 6)]
+			op = []int{0, 1, 2, 5, 6, 7, 8}[ndChoice("op", 7)]
 		} else {
 			op = ndChoice("op", 8)
 		}
 		ncalls := len(spy.calls)
 		before := vBoundFids(sess)
 		switch op {
+		case 8: // clunk or remove through an entry that was already clunked or removed
+			if len(dead) > 0 {
+				d := dead[ndChoice("dead", len(dead))]
+				if ndChoice("dead.remove", 2) == 1 {
+					d.Remove(vBG)
+				} else {
+					d.Clunk(vBG)
+				}
+			}
 		case 0: // Walk
 			var names []string
 			if lite {
@@ -209,6 +219,9 @@ func vC20(steps, maxNames, maxLen int, stubFails bool) {
 			}
 			vAssert(len(spy.calls) == ncalls+1 && c.op == want && c.fid == ent.fid, "C20: clunk/remove issue the call on the entry's own fid")
 			live = append(live[:idx:idx], live[idx+1:]...)
+			if lite {
+				dead = append(dead, ent)
+			}
 		}
 		// live entries <-> pairwise distinct, bound server fids
 		for i := range live {
